@@ -279,12 +279,9 @@ func (in *instA) Digest() string {
 	for _, i := range order {
 		o = append(o, fmt.Sprintf("%s:%d", short(i.Previous.TxID), i.Previous.Index))
 	}
-	var t []string
-	for _, id := range txs {
-		t = append(t, short(id))
-	}
-	sort.Strings(t)
-	return fmt.Sprintf("n%d|%v|%v", in.next, o, t)
+	// the transaction cache evicts by Go map iteration once it is above its bound, so only its
+	// size (which is deterministic) is part of the state
+	return fmt.Sprintf("n%d|%v|%d", in.next, o, len(txs))
 }
 
 func (in *instA) Close() {}
